@@ -1,4 +1,292 @@
-/- C13 — property theorems (under construction). -/
-import Lmd.PeerLoop
+/-
+  C13 — backend availability follows a bounded-staleness state machine.
+
+  The peer state is `Lmd.PeerSt`; the events are `initAllTables` (a rebuild), `tick` (one pass of the
+  update loop) and `clientQuery` (what a client query does to a selected peer).  The backend may be in
+  any mode with any failure countdown at every event.
+
+  1. `up_implies_synced`       a peer reported `Up` holds a data set and carries no error — after every
+                               finite history of events, for every configuration and backend behaviour.
+  2. `fail_keeps_data_until_stale`, `stale_drops`   what a recorded failure does to the data set.
+  3. `recovery`, `init_success`   what a successful contact sets.
+  4. `addr_rotation`           consecutive failures cycle through all sources.
+  5. `idle_rate`, `no_contact_before_due`, `spinup_first`   idling.
+
+  Helper lemmas live in `Lmd.Lemmas.PeerLemmas`.
+-/
+import Lmd.Lemmas.PeerLemmas
+
 namespace Lmd.C13
+open Lmd Lmd.PeerL
+
+/-! ## 1. `Up` implies data and no error -/
+
+/-- the invariant: a peer that is reported `Up` holds a data set and carries no error text -/
+def Inv (p : PeerSt) : Prop := p.status = .up → p.cache.isSome ∧ p.lastError = ""
+
+/-- one event of a peer's life; every event brings its own time and its own backend state -/
+inductive Event
+  | init (now : Int) (b : BackendSt)
+  | tick (now : Int) (b : BackendSt)
+  | query (now : Int) (b : BackendSt)
+
+/-- the peer after one event -/
+def step (w : World) (p : PeerSt) : Event → PeerSt
+  | .init now b => (initAllTables w now p b).p
+  | .tick now b => (tick w now p b).p
+  | .query now b => (clientQuery w now p b).1
+
+/-- the peer after a list of events -/
+def run (w : World) (p : PeerSt) (evs : List Event) : PeerSt := evs.foldl (step w) p
+
+/-- A peer that is not `Up` — in particular a new peer, which is `Pending` — satisfies the invariant. -/
+theorem inv_initial (p : PeerSt) (h : p.status = .pending) : Inv p := by
+  intro hu; rw [h] at hu; cases hu
+
+/-- A rebuild (`InitAllTables`), whatever the backend does during it, keeps the invariant. -/
+theorem init_preserves (w : World) (now : Int) (p : PeerSt) (b : BackendSt) (h : Inv p) :
+    Inv (initAllTables w now p b).p := initAllTables_inv h
+
+/-- One pass of the update loop (`periodicUpdate` and the reload after a detected restart), whatever the
+    backend does during it, keeps the invariant. -/
+theorem tick_preserves (w : World) (now : Int) (p : PeerSt) (b : BackendSt) (h : Inv p) :
+    Inv (tick w now p b).p := tick_inv h
+
+/-- A client query (including the refresh of a peer that is woken from idling) keeps the invariant. -/
+theorem clientQuery_preserves (w : World) (now : Int) (p : PeerSt) (b : BackendSt) (h : Inv p) :
+    Inv (clientQuery w now p b).1 := clientQuery_inv h
+
+/-- Every event keeps the invariant. -/
+theorem step_preserves (w : World) (p : PeerSt) (e : Event) (h : Inv p) : Inv (step w p e) := by
+  cases e with
+  | init now b => exact init_preserves w now p b h
+  | tick now b => exact tick_preserves w now p b h
+  | query now b => exact clientQuery_preserves w now p b h
+
+/-- The invariant holds after every finite history that starts in a state satisfying it. -/
+theorem up_implies_synced_from (w : World) (p0 : PeerSt) (evs : List Event) (h0 : Inv p0) : Inv (run w p0 evs) := by
+  unfold run
+  induction evs generalizing p0 with
+  | nil => exact h0
+  | cons e es ih => exact ih (step w p0 e) (step_preserves w p0 e h0)
+
+/-- For every configuration, every finite list of rebuilds, loop passes and client queries at arbitrary times
+    against a backend in arbitrary modes: a peer that started `Pending` and is reported `Up` at the end holds a
+    data set and has an empty error text. -/
+theorem up_implies_synced (w : World) (p0 : PeerSt) (evs : List Event) (h0 : p0.status = .pending) :
+    (run w p0 evs).status = .up → (run w p0 evs).cache.isSome ∧ (run w p0 evs).lastError = "" :=
+  up_implies_synced_from w p0 evs (inv_initial p0 h0)
+
+/-- a small world for the examples: no schema (every table has no columns), default configuration -/
+def exWorld : World := { cfg := {}, schema := { tables := [] }, mainRestart := 100 }
+
+/-- a backend that answers, with one status row -/
+def exBackend : BackendSt :=
+  { tables := [("status", [[("program_start", Lean.Json.num 5), ("nagios_pid", Lean.Json.num 7)]])], cols := [] }
+
+/-- the same backend refusing connections -/
+def exRefusing : BackendSt := { exBackend with mode := "refuse" }
+
+/-- non-vacuity: a new peer is `Pending`, and a history exists after which it is `Up` (so the conclusion of
+    `up_implies_synced` is not empty), one after which it is `Warning` with the data kept, and one after which
+    it is `Down` without data -/
+example : ({} : PeerSt).status = .pending := rfl
+example : (run exWorld {} [.tick 100 exBackend]).status = .up := by decide
+example : (run exWorld {} [.tick 100 exBackend, .tick 110 exRefusing]).status = .warning ∧
+    (run exWorld {} [.tick 100 exBackend, .tick 110 exRefusing]).cache.isSome = true := by decide
+example : (run exWorld {} [.tick 100 exBackend, .tick 110 exRefusing, .tick 150 exRefusing]).status = .down ∧
+    (run exWorld {} [.tick 100 exBackend, .tick 110 exRefusing, .tick 150 exRefusing]).cache.isSome = false := by decide
+
+/-! ## 2. failures keep the data until the backend is stale -/
+
+/-- A recorded failure leaves the published data set in place as long as the backend was seen within
+    `StaleBackendTimeout` and the peer is not a never-online peer that failed more often than it has sources.
+    A peer that was `Up`, `Pending` or `Syncing` with data is then `Warning`; the failure text is recorded. -/
+theorem fail_keeps_data_until_stale (w : World) (p : PeerSt) (now : Int) (msg : String)
+    (hfresh : now - w.cfg.staleTimeout ≤ p.lastOnline)
+    (hnever : ¬ (p.errorCount + 1 > p.sources.length ∧ p.lastOnline ≤ 0)) :
+    (p.fail w now msg).cache = p.cache ∧ (p.fail w now msg).lastError = msg ∧
+      (p.cache.isSome → (p.status = .up ∨ p.status = .pending ∨ p.status = .syncing) →
+        (p.fail w now msg).status = .warning) := by
+  have hs : staleNow w p now = false := by
+    unfold staleNow
+    have h1 : ¬ p.lastOnline < now - w.cfg.staleTimeout := by omega
+    have h2 : ¬ (p.errorCount + 1 > p.sources.length ∧ p.lastOnline ≤ 0) := hnever
+    simp only [Bool.or_eq_false_iff, decide_eq_false_iff_not, Bool.and_eq_false_imp, decide_eq_true_eq]
+    exact ⟨h1, fun a b => h2 ⟨a, b⟩⟩
+  rw [fail_cache, fail_status, fail_lastError, hs]
+  refine ⟨rfl, rfl, fun hc hst => ?_⟩
+  simp only [Bool.false_eq_true, if_false]
+  unfold degraded
+  rcases hst with h | h | h <;> rw [h] <;> simp [hc]
+
+example : (1000 : Int) - exWorld.cfg.staleTimeout ≤ ({ lastOnline := 990 } : PeerSt).lastOnline ∧
+    ¬ (({ lastOnline := 990 } : PeerSt).errorCount + 1 > ({ lastOnline := 990 } : PeerSt).sources.length ∧
+        ({ lastOnline := 990 } : PeerSt).lastOnline ≤ 0) := by decide
+
+/-- A failure recorded when the backend was last seen more than `StaleBackendTimeout` ago sets the peer `Down`
+    and removes the data set. -/
+theorem stale_drops (w : World) (p : PeerSt) (now : Int) (msg : String)
+    (h : p.lastOnline < now - w.cfg.staleTimeout) :
+    (p.fail w now msg).status = .down ∧ (p.fail w now msg).cache = none := by
+  have hs : staleNow w p now = true := by
+    unfold staleNow; simp [h]
+  rw [fail_status, fail_cache, hs]
+  exact ⟨rfl, rfl⟩
+
+example : ({ lastOnline := 990 } : PeerSt).lastOnline < (1100 : Int) - exWorld.cfg.staleTimeout := by decide
+
+/-- The same for a peer that was never online: once it failed more often than it has sources it is `Down`
+    without data. -/
+theorem never_online_drops (w : World) (p : PeerSt) (now : Int) (msg : String)
+    (h1 : p.errorCount + 1 > p.sources.length) (h2 : p.lastOnline ≤ 0) :
+    (p.fail w now msg).status = .down ∧ (p.fail w now msg).cache = none := by
+  have hs : staleNow w p now = true := by
+    unfold staleNow; simp [h1, h2]
+  rw [fail_status, fail_cache, hs]
+  exact ⟨rfl, rfl⟩
+
+example : ({ errorCount := 1 } : PeerSt).errorCount + 1 > ({ errorCount := 1 } : PeerSt).sources.length ∧
+    ({ errorCount := 1 } : PeerSt).lastOnline ≤ 0 := by decide
+
+/-! ## 3. recovery -/
+
+/-- `resetErrors`: the peer is `Up`, the error text is empty, the backend counts as seen now, the failure
+    counter is zero; the data set is untouched. -/
+theorem recovery (p : PeerSt) (now : Int) :
+    (p.recovered now).status = .up ∧ (p.recovered now).lastError = "" ∧ (p.recovered now).lastOnline = now ∧
+      (p.recovered now).errorCount = 0 ∧ (p.recovered now).cache = p.cache :=
+  ⟨rfl, rfl, rfl, rfl, rfl⟩
+
+/-- A rebuild that succeeds — from any state — leaves the peer `Up` with a data set, an empty error text, the
+    backend seen now and a failure counter of zero. -/
+theorem init_success (w : World) (now : Int) (p : PeerSt) (b : BackendSt)
+    (h : (initAllTables w now p b).err = .none) :
+    (initAllTables w now p b).p.status = .up ∧ (initAllTables w now p b).p.cache.isSome ∧
+      (initAllTables w now p b).p.lastError = "" ∧ (initAllTables w now p b).p.lastOnline = now ∧
+      (initAllTables w now p b).p.errorCount = 0 := by
+  obtain ⟨a, b1, c, d, e⟩ := (initAllTables_spec w now p b).2.1 h
+  exact ⟨b1, by rw [a]; rfl, c, d, e⟩
+
+example : (initAllTables exWorld 100 {} exBackend).err = .none := by decide
+
+/-- A delta update that succeeds leaves the peer `Up` with a data set, an empty error text, the backend seen
+    now, a failure counter of zero and the update time set to now. -/
+theorem delta_success (w : World) (now : Int) (p : PeerSt) (b : BackendSt) (c : Cache) (fromT : Int)
+    (h : (updateDelta w now p b c fromT).err = .none) :
+    (updateDelta w now p b c fromT).p.status = .up ∧ (updateDelta w now p b c fromT).p.cache.isSome ∧
+      (updateDelta w now p b c fromT).p.lastError = "" ∧ (updateDelta w now p b c fromT).p.lastOnline = now ∧
+      (updateDelta w now p b c fromT).p.errorCount = 0 := by
+  obtain ⟨a, b1, c1, d, _, f⟩ := updateDelta_ok h
+  exact ⟨a, f, b1, c1, d⟩
+
+example : (updateDelta exWorld0 130 { exPeer0 with lastUpdate := 130 } exBackend0 [] 120).err = .none := exDelta_ok
+
+/-! ## 4. source rotation -/
+
+/-- `k` consecutive recorded failures, each at its own time with its own text -/
+def failN (w : World) (p : PeerSt) (evs : List (Int × String)) : PeerSt :=
+  evs.foldl (fun p e => p.fail w e.1 e.2) p
+
+/-- After any number `k` of consecutive failures the source index is the old one advanced by `k`, modulo the
+    number of sources; the source list is unchanged and the current address is the source at that index. -/
+theorem addr_rotation_index (w : World) (evs : List (Int × String)) (p : PeerSt) (h : p.addrIdx < p.sources.length) :
+    (failN w p evs).addrIdx = (p.addrIdx + evs.length) % p.sources.length ∧
+      (failN w p evs).sources = p.sources ∧
+      (evs ≠ [] → (failN w p evs).addr = p.sources.getD ((p.addrIdx + evs.length) % p.sources.length) .self) := by
+  unfold failN
+  induction evs generalizing p with
+  | nil => exact ⟨by simp [Nat.mod_eq_of_lt h], rfl, fun h => absurd rfl h⟩
+  | cons e es ih =>
+    have hidx := next_mod h
+    have hsrc : (p.fail w e.1 e.2).sources = p.sources := fail_sources w p e.1 e.2
+    have hlt : (p.fail w e.1 e.2).addrIdx < (p.fail w e.1 e.2).sources.length := by
+      rw [hsrc, fail_addrIdx, hidx]; exact Nat.mod_lt _ (by omega)
+    obtain ⟨i1, i2, i3⟩ := ih (p.fail w e.1 e.2) hlt
+    rw [List.foldl_cons]
+    rw [hsrc, fail_addrIdx, hidx] at i1 i3
+    have harith : ((p.addrIdx + 1) % p.sources.length + es.length) % p.sources.length =
+        (p.addrIdx + (e :: es).length) % p.sources.length := by
+      rw [Nat.mod_add_mod, List.length_cons]; congr 1; omega
+    refine ⟨i1.trans harith, i2.trans hsrc, fun _ => ?_⟩
+    cases es with
+    | nil =>
+      simp only [List.foldl_nil, List.length_cons, List.length_nil]
+      rw [fail_addr, ← hidx]
+    | cons e' es' =>
+      rw [i3 (by simp), harith]
+
+/-- `n` consecutive failures on a peer with `n` sources return to the source they started from, and on the way
+    every source index is the current one exactly once: for each index `j` there is exactly one `k` in `1..n`
+    such that the index after `k` failures is `j`. -/
+theorem addr_rotation (w : World) (p : PeerSt) (evs : List (Int × String))
+    (h : p.addrIdx < p.sources.length) (hn : evs.length = p.sources.length) :
+    (failN w p evs).addrIdx = p.addrIdx ∧
+    (∀ k, k ≤ evs.length → (failN w p (evs.take k)).addrIdx = (p.addrIdx + k) % p.sources.length) ∧
+    (∀ j, j < p.sources.length →
+      ∃ k, 1 ≤ k ∧ k ≤ evs.length ∧ (failN w p (evs.take k)).addrIdx = j ∧
+        ∀ k', 1 ≤ k' → k' ≤ evs.length → (failN w p (evs.take k')).addrIdx = j → k' = k) := by
+  have hk : ∀ k, k ≤ evs.length → (failN w p (evs.take k)).addrIdx = (p.addrIdx + k) % p.sources.length := by
+    intro k hk
+    rw [(addr_rotation_index w (evs.take k) p h).1, List.length_take, Nat.min_eq_left hk]
+  refine ⟨?_, hk, fun j hj => ?_⟩
+  · rw [(addr_rotation_index w evs p h).1, hn, Nat.add_mod_right, Nat.mod_eq_of_lt h]
+  · obtain ⟨k, k1, k2, k3, k4⟩ := rotation_arith h hj
+    refine ⟨k, k1, hn ▸ k2, (hk k (hn ▸ k2)).trans k3, fun k' a b c => ?_⟩
+    rw [hk k' b] at c
+    exact k4 k' a (hn ▸ b) c
+
+example : ({ sources := [.self, .dead, .dead], addrIdx := 1 } : PeerSt).addrIdx <
+    ({ sources := [.self, .dead, .dead], addrIdx := 1 } : PeerSt).sources.length := by decide
+
+/-! ## 5. idling -/
+
+/-- While the minute refresh is not due (the peer idles after this pass's idle check, or the minute did not
+    change, or there is no data) and the next run is not due (`UpdateInterval`, or `IdleInterval` while idling,
+    after the last update), a pass of the update loop sends nothing to the backend and reports no run; the only
+    change to the peer is the idle flag. -/
+theorem no_contact_before_due (w : World) (now : Int) (p : PeerSt) (b : BackendSt)
+    (htp : idlesAt w now p = true ∨ p.lastTpMinute = (now / 60) % 60 ∨ p.cache = none)
+    (hdue : now < p.lastUpdate + (if idlesAt w now p then w.cfg.idleInterval else w.cfg.updateInterval)) :
+    (tick w now p b).b = b ∧ (tick w now p b).ran = false ∧ (tick w now p b).err = .none ∧
+      (tick w now p b).p = idleStep w now p := by
+  rw [tick_quiet w now p b htp hdue]
+  exact ⟨rfl, rfl, rfl, rfl⟩
+
+/-- An idling peer is left completely alone, and so is its backend, until `IdleInterval` after its last update. -/
+theorem idle_rate (w : World) (now : Int) (p : PeerSt) (b : BackendSt)
+    (hidle : p.idling = true) (hdue : now < p.lastUpdate + w.cfg.idleInterval) :
+    (tick w now p b).b = b ∧ (tick w now p b).ran = false ∧ (tick w now p b).err = .none ∧ (tick w now p b).p = p := by
+  have hi : idlesAt w now p = true := by unfold idlesAt; simp [hidle]
+  have := no_contact_before_due w now p b (.inl hi) (by rw [hi]; exact hdue)
+  refine ⟨this.1, this.2.1, this.2.2.1, this.2.2.2.trans ?_⟩
+  unfold idleStep; simp [hidle]
+
+example : ({ idling := true, lastUpdate := 100 } : PeerSt).idling = true ∧
+    (500 : Int) < ({ idling := true, lastUpdate := 100 } : PeerSt).lastUpdate + exWorld.cfg.idleInterval := by decide
+
+/-- Hence a pass of the loop over an idling peer that does reach the backend happens no earlier than
+    `IdleInterval` after the last update. -/
+theorem idle_contact_is_due (w : World) (now : Int) (p : PeerSt) (b : BackendSt)
+    (hidle : p.idling = true) (hcontact : (tick w now p b).b ≠ b) : p.lastUpdate + w.cfg.idleInterval ≤ now := by
+  by_cases h : now < p.lastUpdate + w.cfg.idleInterval
+  · exact absurd (idle_rate w now p b hidle h).1 hcontact
+  · omega
+
+/-- A client query that selects an idling peer wakes it: the refresh of `ResumeFromIdle` runs on the peer with
+    the idle flag cleared and the query time recorded, and its outcome — with the idle flag still cleared and the
+    query time `now` — is the state the answer is built from. -/
+theorem spinup_first (w : World) (now : Int) (p : PeerSt) (b : BackendSt) (hidle : p.idling = true) :
+    (clientQuery w now p b).1.idling = false ∧ (clientQuery w now p b).1.lastQuery = now ∧
+      clientQuery w now p b =
+        ({ (resume w now { p with lastQuery := now, idling := false } b).1 with lastQuery := now },
+         (resume w now { p with lastQuery := now, idling := false } b).2) := by
+  rw [clientQuery_eq, if_pos hidle]
+  exact ⟨resume_idling w now _ b, rfl, rfl⟩
+
+/-- A client query on a peer that is awake only records the query time. -/
+theorem query_awake (w : World) (now : Int) (p : PeerSt) (b : BackendSt) (h : p.idling = false) :
+    clientQuery w now p b = ({ p with lastQuery := now }, b) := by
+  rw [clientQuery_eq, if_neg (by simp [h])]
+
 end Lmd.C13
